@@ -272,6 +272,11 @@ type c05World struct {
 	human     []string
 }
 
+// A CLI token's expiry is a signed claim the harness cannot move: tokens that must stay valid live longer
+// than the simulated time of any history (at most 20 ticks of an hour), tokens that must be expired are
+// minted with lifetime 0.
+const c05TokenLife = 1000000
+
 const (
 	c05PW, c05U2F, c05VIP, c05TOTP, c05BOOT, c05CLI, c05FIDO2 = 1, 3, 4, 6, 8, 10, 11
 )
@@ -987,7 +992,7 @@ func (w *c05World) randomOp(rng *mrand.Rand) {
 			w.vipOtp(ses(), u, true)
 			return
 		case 6:
-			w.showTok(ses(), 3600)
+			w.showTok(ses(), c05TokenLife)
 			return
 		case 7:
 			if len(w.tokens) > 0 {
@@ -1034,7 +1039,7 @@ func (w *c05World) randomOp(rng *mrand.Rand) {
 			w.bootstrap(pickCs(), rng.Intn(w.fresh+1)-1)
 		}
 	case 17:
-		w.showTok(pickCs(), []int64{0, 3600}[rng.Intn(2)])
+		w.showTok(pickCs(), []int64{0, c05TokenLife}[rng.Intn(2)])
 	case 18:
 		w.sendDoc(pickCs(), rng.Intn(len(w.tokens)+1))
 	default:
@@ -1108,9 +1113,9 @@ func (w *c05World) targeted() []func() {
 			w.issueOtp(2, 90000)
 		},
 		func() { // CLI token: needs a second factor session; other user's token; expired token
-			w.showTok([]int{0}, 3600)
+			w.showTok([]int{0}, c05TokenLife)
 			w.totp([]int{0}, 1, w.modelStep())
-			w.showTok([]int{len(w.cookies) - 1}, 3600)
+			w.showTok([]int{len(w.cookies) - 1}, c05TokenLife)
 			w.sendDoc([]int{1}, 0)
 			w.vipOtp([]int{1}, 2, true)
 			w.sendDoc([]int{len(w.cookies) - 1}, 0)
@@ -1124,10 +1129,14 @@ func (w *c05World) targeted() []func() {
 
 func TestVerif_C05(t *testing.T) {
 	verifWriteConsts(t)
-	res := newVerifResult("exhaustive depth-3 histories over a 14-letter alphabet (thorough: also depth 4 over its first ten letters) after the prefix [login alice; login bob] + seeded random histories of length <= 12 (thorough <= 20) over all 16 operations, two enrolment configurations, cookies attached singly and in pairs in both orders + targeted scenarios; non-trivial = the history contains at least one level upgrade; distinct by (operations, outputs)")
+	res := newVerifResult("exhaustive depth-3 histories over a 14-letter alphabet (thorough: also depth 4 over its first eight letters) after the prefix [login alice; login bob] + seeded random histories of length <= 12 (thorough <= 20) over all 16 operations, two enrolment configurations, cookies attached singly and in pairs in both orders + targeted scenarios; non-trivial = the history contains at least one level upgrade; distinct by (operations, outputs)")
 	vip := &c05Vip{}
 	vip.reset()
-	vip.srv = httptest.NewTLSServer(http.HandlerFunc(vip.handle))
+	// lib/vip builds a new http.Transport for every call and never closes its idle connection: without
+	// this the test binary runs out of file descriptors after a few thousand VIP calls
+	vip.srv = httptest.NewUnstartedServer(http.HandlerFunc(vip.handle))
+	vip.srv.Config.SetKeepAlivesEnabled(false)
+	vip.srv.StartTLS()
 	defer vip.srv.Close()
 	env := verifSetup(t, func(c *AppConfigFile, dir string) {
 		c.Base.AllowedAuthBackendsForWebUI = []string{"U2F", "SymantecVIP", "TOTP", "BootstrapOTP"}
@@ -1213,7 +1222,7 @@ func TestVerif_C05(t *testing.T) {
 			res.bump("history:targeted")
 		}
 	}
-	// exhaustive small scope: depth 3 over the whole alphabet; thorough adds depth 4 over its first ten letters
+	// exhaustive small scope: depth 3 over the whole alphabet; thorough adds depth 4 over its first eight letters
 	w.devs, w.cfgID = configs[0], 0
 	enumerate := func(nAlpha, depth int, tag string) {
 		total := 1
@@ -1233,13 +1242,13 @@ func TestVerif_C05(t *testing.T) {
 	}
 	enumerate(len(w.alphabet()), 3, "exhaustive")
 	if thorough {
-		enumerate(10, 4, "exhaustive-depth4")
+		enumerate(8, 4, "exhaustive-depth4")
 	}
 	res.Exhaustive = true
 	// random
 	nRandom, maxLen := 300, 12
 	if thorough {
-		nRandom, maxLen = 3000, 20
+		nRandom, maxLen = 2000, 20
 	}
 	for h := 0; h < nRandom; h++ {
 		ci := h % len(configs)
